@@ -10,3 +10,5 @@ mod test;
 pub use self::decoder::{Decoder, DecoderError};
 pub use self::encoder::Encoder;
 pub use self::header::{BytesStr, Header};
+#[cfg(feature = "verif-hooks")]
+pub use self::decoder::NeedMore;
